@@ -23,7 +23,8 @@ def extra(tier, rng):
     """computations that hit the runaway-recursion guard (MAX_TASK_STACK_SIZE lowered), alone and nested in
     synchronous calls whose callers catch the RuntimeError, followed by further computations on the same thread"""
     import coregen
-    res = [cc.ctxraise_case(w, n, h, sb) for w in ("pause", "resume") for n in (0, 1, 2) for h in (0, 1) for sb in (0, 1)]
+    res = [coregen.foreign_sync_family(rng) for _ in range(40 if tier == "quick" else 600)]
+    res += [cc.ctxraise_case(w, n, h, sb) for w in ("pause", "resume") for n in (0, 1, 2) for h in (0, 1) for sb in (0, 1)]
     for _ in range(60 if tier == "quick" else 1500):
         c = coregen.gen_case(rng, rng.choice(["sync", "full", "yield"]), ntops=rng.choice([1, 2, 3]))
         c["cfg"]["maxStack"] = rng.choice([1, 2, 3, 4, 6, 9])
